@@ -420,8 +420,29 @@ def reject(ctx, rn, fam, fs):
                 if 'Missing field' in txt:
                     for m in _re.findall(r'Missing field `([a-z_A-Z]+)`', txt):
                         attrs[m] = attrs.get(m, 0) + 1
-    want = {'items', 'values', 'symbols', 'size', 'fields', 'precision', 'scale'}
+    want = {'items', 'values', 'symbols', 'size', 'fields', 'precision'}
     ctx.ob('REJECT', 'missing-attributes', want <= set(attrs), short_loc(rn.span), 'attributes whose absence is an error: %s (required: %s)' % (sorted(attrs), sorted(want)))
+    # ... and only those: the specification makes the scale of a decimal optional ("scale, a JSON integer representing the
+    # scale (optional). If not specified the scale is 0"), so a document without it is valid and must parse, with scale 0
+    # (this rule used to list `scale` as required - the reviewed table was wrong, not only the code: F21)
+    optional = {'scale': 0}
+    over = sorted(set(attrs) & set(optional))
+    dflt = {}
+    for x in fam:
+        for bb in sorted(x.live_blocks()):
+            if x.is_cleanup(bb):
+                continue
+            for s_ in x.stmts(bb):
+                if 'assign' in s_ and s_['rv']['k'] == 'agg' and (s_['rv'].get('adt') or '').endswith('schema::safe::Decimal'):
+                    for nm, dv in optional.items():
+                        if nm in (s_['rv'].get('fields') or []):
+                            o = origin(x, s_['rv']['ops'][s_['rv']['fields'].index(nm)])
+                            uw = [c for c in o.calls if strip_generics(cname(c)).endswith('Option::unwrap_or')]
+                            ud = [c for c in o.calls if strip_generics(cname(c)).endswith('Option::unwrap_or_default')]
+                            dflt[nm] = nm in o.fields and ((len(uw) == 1 and const_int(uw[0]['args'][1]) == dv) or (len(ud) == 1 and dv == 0) or
+                                                           (dv in o.consts() and not o.calls))
+    ctx.ob('REJECT', 'optional-attributes-default', not over and all(dflt.get(k) for k in optional), short_loc(rn.span),
+           'optional attributes rejected when absent: %s; decimal scale = the attribute or 0: %s' % (over or 'none', dflt.get('scale')))
     # missing name for named types: the `name` closure errs on None
     okn = False
     for x in fam:
